@@ -58,8 +58,7 @@ def gen_runs(tier, seed):
                          OFFSET=rnd.randrange(499)))
         runs.append(dict(V=4, EMIN=2, EMAX=3, WSET={2, 3, 4, 6, 8}, WD=4, DSET={1, 2, 3, 4}, EXTV=4, STRIDE=199, OFFSET=rnd.randrange(199)))
         runs.append(dict(V=4, EMIN=4, EMAX=4, WSET={2, 4, 6}, WD=4, DSET={1, 3}, EXTV=4, STRIDE=4001, OFFSET=rnd.randrange(4001)))
-        runs.append(dict(V=4, EMIN=5, EMAX=5, WSET={4, 6}, WD=4, DSET={1, 2}, EXTV=2, STRIDE=32003,
-                         OFFSET=rnd.randrange(32003)))
+        # (5-edge graphs and beyond come from Gen_TableRand below: enumerating their decorations takes hours)
     return runs
 
 
